@@ -1,0 +1,23 @@
+//go:build verif
+
+// Contracts for the deductive verifier in /verif (gocv). Comment-only file. The ART itself is not verified: its
+// flag iterators are assumed to start at the smallest / largest key the tree holds (keys abstract, bytes: key).
+
+package art
+
+//@ spec func minKeyOf(t *ART) []byte
+//@ spec func maxKeyOf(t *ART) []byte
+
+//@ func (*ART) IterWithFlags
+//@   trusted
+//@   bytes: key
+//@   modifies nothing
+//@   ensures result != nil && fresh(result)
+//@   ensures lowerBound == "" && upperBound == "" && itValid(result) ==> curKey(result) == minKeyOf(t) && minKeyOf(t) <= maxKeyOf(t)
+
+//@ func (*ART) IterReverseWithFlags
+//@   trusted
+//@   bytes: key
+//@   modifies nothing
+//@   ensures result != nil && fresh(result)
+//@   ensures upperBound == "" && itValid(result) ==> curKey(result) == maxKeyOf(t) && minKeyOf(t) <= maxKeyOf(t)
